@@ -440,6 +440,7 @@ func c11(p *model.Prog, r *report.Result) {
 	w6FlvTsBits(p, r, "C11.R9")
 	w7ReadAtLeastWhole(p, r, "C11.R10")
 	w8HttpHeaderOnlyOnce(p, r, "C11.R11")
+	w9WebSocketDetect(p, r, "C11.R12")
 
 	// ---------------------------------------------------------------- R4
 	r.Rule("C11.R4", "httpflv.FlvHeader is initialised to 46 4c 56 01 05 00 00 00 09 00 00 00 00 (13 bytes = flvHeaderSize) and nothing else stores to it")
